@@ -1264,11 +1264,13 @@ package stun
 //@   requires c != nil
 //@   assigns c.handler, c.rto, c.clock, c.rtoRate, c.a, c.collector, c.closeConn, c.maxAttempts, c.c
 //@   allocates
-//@   ensures c.clock != nil && c.maxAttempts < 2147483646
+//@   ensures c.clock != nil && c.maxAttempts < 2147483646 && c.rtoRate > 0
 //@ func ClientAgent.SetHandler(a, h)
 //@   pure
 //@   allocates
+// (the default collector hands the rate to time.NewTicker, which panics unless it is positive)
 //@ func Collector.Start(a, rate, f)
+//@   requires rate > 0
 //@   pure
 //@   allocates
 //@ func NewClient(conn, options)
@@ -1284,7 +1286,7 @@ package stun
 //@   loop 0
 //@     assigns *client
 //@     invariant -1 <= rangeindex && (rangeindex < len(options) || len(options) == 0 && rangeindex == -1)
-//@     invariant client != nil && fresh(client) && client.clock != nil && client.maxAttempts < 2147483646 && !client.closed
+//@     invariant client != nil && fresh(client) && client.clock != nil && client.maxAttempts < 2147483646 && client.rtoRate > 0 && !client.closed
 //@     invariant region(client.t) != 0 && fresh(client.t) && forallkey(k, !haskey(client.t, k)) && client.close != nil && gmap(chclosed)[client.close] == 0
 //@     invariant gmap(held)[region(client)] == 0
 //@     invariant len(options) == 0 ==> client.c == conn && client.closeConn && client.maxAttempts == 7 && client.rto == 300000000
@@ -1711,3 +1713,85 @@ package stun
 //@   ensures Init(c) && old(c.closed) ==> result == ErrClientClosed && Writes(0) && AgentOps(0) && SameClientTable(c)
 //@   ensures Init(c) && !old(c.closed) && f != nil && old(haskey(c.t, m.TransactionID)) ==> result == ErrTransactionExists && Writes(0) && SameClientTable(c)
 //@   ensures result == nil && f != nil && c != nil ==> Registered(c, m.TransactionID, c.t[m.TransactionID]) && c.t[m.TransactionID].h != nil && Writes(1) && Wrote(old(ghost(wr_n)), m.Raw)
+
+// ---- batch helpers (C07: getters and checkers leave the message as they found it) ----
+// Interface contracts of user-supplied getters / checkers: they may write to whatever they own, but the message's
+// visible bytes, length and attribute list are as before (C07), whether they succeed or fail.
+//@ define SameMessage(m) = sameslice(m.Raw, old(m.Raw)) && m.Length == old(m.Length) && sameslice(m.Attributes, old(m.Attributes)) && m.Type.Method == old(m.Type.Method) && m.Type.Class == old(m.Type.Class) && m.TransactionID == old(m.TransactionID)
+//@   | && forall(i, 0, len(m.Raw), m.Raw[i] == old(m.Raw[i]))
+//@ define SameMessageLoop(m) = sameslice(m.Raw, loopold(m.Raw)) && m.Length == loopold(m.Length) && sameslice(m.Attributes, loopold(m.Attributes)) && m.Type.Method == loopold(m.Type.Method) && m.Type.Class == loopold(m.Type.Class) && m.TransactionID == loopold(m.TransactionID)
+//@   | && forall(i, 0, len(m.Raw), m.Raw[i] == loopold(m.Raw[i]))
+//@ func Getter.GetFrom(g, m)
+//@   requires m != nil
+//@   assigns everything, gmap(hstate)
+//@   allocates
+//@   ensures SameMessage(m)
+//@ func Checker.Check(c, m)
+//@   requires m != nil
+//@   assigns everything, gmap(hstate)
+//@   allocates
+//@   ensures SameMessage(m)
+// as called from the batch helpers: the callee does not touch the caller's argument list either
+//@ func (*Message).Parse->Getter.GetFrom(g, m)
+//@   requires m != nil
+//@   assigns everything, gmap(hstate)
+//@   allocates
+//@   ensures SameMessage(m) && sameslice(getters, old(getters)) && forall(i, 0, len(getters), getters[i] == old(getters[i]))
+//@ func (*Message).Check->Checker.Check(c, m)
+//@   requires m != nil
+//@   assigns everything, gmap(hstate)
+//@   allocates
+//@   ensures SameMessage(m) && sameslice(checkers, old(checkers)) && forall(i, 0, len(checkers), checkers[i] == old(checkers[i]))
+//@ func (*Message).Parse(m, getters)
+//@   safety C07 C02
+//@   props C07
+//@   requires m != nil && forall(i, 0, len(getters), getters[i] != nil)
+//@   assigns everything, gmap(hstate)
+//@   allocates
+//@   ensures SameMessage(m)
+//@   loop 0
+//@     assigns everything, gmap(hstate)
+//@     invariant -1 <= rangeindex && m != nil && SameMessageLoop(m) && sameslice(getters, loopold(getters)) && forall(i, 0, len(getters), getters[i] != nil)
+//@     decreases len(getters) - rangeindex
+//@ func (*Message).Check(m, checkers)
+//@   safety C07 C02
+//@   props C07
+//@   requires m != nil && forall(i, 0, len(checkers), checkers[i] != nil)
+//@   assigns everything, gmap(hstate)
+//@   allocates
+//@   ensures SameMessage(m)
+//@   loop 0
+//@     assigns everything, gmap(hstate)
+//@     invariant -1 <= rangeindex && m != nil && SameMessageLoop(m) && sameslice(checkers, loopold(checkers)) && forall(i, 0, len(checkers), checkers[i] != nil)
+//@     decreases len(checkers) - rangeindex
+
+// the TransactionID setter: a fresh random id written to struct and header alike
+//@ func transactionIDSetter.AddTo(s, m)
+//@   safety C03
+//@   props C03
+//@   requires m != nil && Built(m)
+//@   assigns m.TransactionID, m.Raw[8:20]
+//@   allocates
+//@   ensures result == nil ==> Built(m)
+
+//@ func New()
+//@   safety C01 C03 C12
+//@   props C03
+//@   pure
+//@   allocates
+//@   ensures result != nil && fresh(result) && len(result.Raw) == 20 && cap(result.Raw) == 120 && forall(i, 0, 20, result.Raw[i] == 0) && fresh(result.Raw) && len(result.Attributes) == 0
+
+// ---- the default collector (C15: Close stops the ticker goroutine and waits for it) ----
+//@ func (*tickerCollector).Close(a)
+//@   safety C15
+//@   props C15
+//@   requires a != nil && a.close != nil && gmap(chclosed)[a.close] == 0
+//@   assigns gmap(chclosed)[a.close], ghost(wg_waits)
+//@   ensures result == nil && gmap(chclosed)[a.close] == 1 && ghost(wg_waits) == old(ghost(wg_waits)) + 1
+//@ func (*tickerCollector).Start(a, rate, f)
+//@   safety C15
+//@   props C15
+//@   requires a != nil && rate > 0
+//@   assigns ghost(wg_adds)
+//@   allocates
+//@   ensures result == nil && ghost(wg_adds) == old(ghost(wg_adds)) + 1
